@@ -428,6 +428,58 @@ pub fn prepare(sc: &Scenario) -> Result<Prepared, Result<&'static str, Violation
     Ok(Prepared { parsed, path, script, no_final_newline, model_encoding, cut })
 }
 
+impl C11 {
+    /// The release binary's `debug` sub-command on one scenario.
+    pub fn real_case(&self, sc: &Scenario) -> (u64, Option<(Scenario, Violation)>) {
+        let bin = match crate::real::binary() {
+            Ok(b) => b,
+            Err(e) => {
+                println!("HARNESS-ERROR: {}", e);
+                std::process::exit(2);
+            }
+        };
+            let pr = match prepare(sc) {
+                Ok(p) => p,
+                Err(_) => return (0, None),
+            };
+            let d = sim::scratch_dir().join("c11real");
+            std::fs::create_dir_all(&d).expect("mkdir");
+            let fpath = d.join(&sc.file_name);
+            std::fs::write(&fpath, sc.file_content()).expect("write");
+            let stdin = script_bytes(&pr.script, pr.no_final_newline, sc.knob("crlf") == 1);
+            let args: Vec<String> = vec!["debug".into(), "--color".into(), "never".into(), fpath.to_string_lossy().into_owned()];
+            let chunks = crate::real::chunks_from_plan(&sc.plan, 64);
+            let r = crate::real::run(&bin, &args, None, &stdin, &chunks, std::time::Duration::from_secs(60)).expect("spawn");
+            let res = drive(&pr.script, &pr.parsed, &pr.path, &sc.file_name, b"", Some(&r.stdout), 4000);
+            let want_status = match &res.end {
+                DbgEnd::ProgramExit(c) => *c,
+                DbgEnd::EncodingError => 1,
+                _ => 0,
+            };
+            let mut v = None;
+            if r.timed_out || r.signal.is_some() || r.status == Some(101) {
+                v = Some(Violation::new("real-crash", "the debugger never crashes", format!("{} ; stderr {:?} ; script {:?}", r.describe(), truncate(&String::from_utf8_lossy(&r.stderr), 300), pr.script)));
+            } else if let Some(x) = res.violation {
+                v = Some(Violation::new(&format!("real-{}", x.clause), x.expected, x.observed));
+            } else if r.status != Some(want_status) {
+                v = Some(Violation::new("real-ending", format!("status {}", want_status), r.describe()));
+            } else if res.end != DbgEnd::EncodingError && (res.pos != r.stdout.len() || !r.stderr.is_empty()) {
+                v = Some(Violation::new(
+                    "real-extra-output",
+                    "nothing after the last expected piece, empty stderr",
+                    format!("stdout tail {:?} ; stderr {:?}", truncate(&String::from_utf8_lossy(&r.stdout[res.pos.min(r.stdout.len())..]), 200), truncate(&String::from_utf8_lossy(&r.stderr), 200)),
+                ));
+            }
+            if let Some(mut v) = v {
+                v.world = "real";
+                let mut s = sc.clone();
+                s.script = pr.script.clone();
+                return (1, Some((s, v)));
+            }
+            (1, None)
+    }
+}
+
 impl Property for C11 {
     fn id(&self) -> &'static str {
         "C11"
@@ -478,6 +530,9 @@ impl Property for C11 {
         }
         sc.budget = 600;
         sc.cap_bits = 96;
+        if rng.chance(20) {
+            sc.set_knob("layout", 1);
+        }
         sc
     }
     fn run(&self, sc: &Scenario) -> RunOut {
@@ -600,52 +655,18 @@ impl Property for C11 {
         };
         let dir = sim::scratch_dir().join("c11real");
         std::fs::create_dir_all(&dir).expect("mkdir");
+        let _ = &bin;
         let (spawned, bad) = crate::runner::par_find(n, |i| {
             let sc = crate::runner::make_scenario(self, seed, i, tier);
-            let pr = match prepare(&sc) {
-                Ok(p) => p,
-                Err(_) => return (0, None),
-            };
-            let d = sim::scratch_dir().join("c11real");
-            std::fs::create_dir_all(&d).expect("mkdir");
-            let fpath = d.join(&sc.file_name);
-            std::fs::write(&fpath, sc.file_content()).expect("write");
-            let stdin = script_bytes(&pr.script, pr.no_final_newline, sc.knob("crlf") == 1);
-            let args: Vec<String> = vec!["debug".into(), "--color".into(), "never".into(), fpath.to_string_lossy().into_owned()];
-            let chunks = crate::real::chunks_from_plan(&sc.plan, 64);
-            let r = crate::real::run(&bin, &args, None, &stdin, &chunks, std::time::Duration::from_secs(60)).expect("spawn");
-            let res = drive(&pr.script, &pr.parsed, &pr.path, &sc.file_name, b"", Some(&r.stdout), 4000);
-            let want_status = match &res.end {
-                DbgEnd::ProgramExit(c) => *c,
-                DbgEnd::EncodingError => 1,
-                _ => 0,
-            };
-            let mut v = None;
-            if r.timed_out || r.signal.is_some() || r.status == Some(101) {
-                v = Some(Violation::new("real-crash", "the debugger never crashes", format!("{} ; stderr {:?} ; script {:?}", r.describe(), truncate(&String::from_utf8_lossy(&r.stderr), 300), pr.script)));
-            } else if let Some(x) = res.violation {
-                v = Some(Violation::new(&format!("real-{}", x.clause), x.expected, x.observed));
-            } else if r.status != Some(want_status) {
-                v = Some(Violation::new("real-ending", format!("status {}", want_status), r.describe()));
-            } else if res.end != DbgEnd::EncodingError && (res.pos != r.stdout.len() || !r.stderr.is_empty()) {
-                v = Some(Violation::new(
-                    "real-extra-output",
-                    "nothing after the last expected piece, empty stderr",
-                    format!("stdout tail {:?} ; stderr {:?}", truncate(&String::from_utf8_lossy(&r.stdout[res.pos.min(r.stdout.len())..]), 200), truncate(&String::from_utf8_lossy(&r.stderr), 200)),
-                ));
-            }
-            if let Some(mut v) = v {
-                v.world = "real";
-                let mut s = sc.clone();
-                s.script = pr.script.clone();
-                return (1, Some((s, v)));
-            }
-            (1, None)
+            self.real_case(&sc)
         });
         let _ = std::fs::remove_dir_all(&dir);
         stats.extra.push(("realworld_spawns".into(), J::Int(spawned as i64)));
         stats.extra.push(("realworld_note".into(), J::str("release binary `hyeong debug --color never FILE`, script on a real pipe in planned write sizes, same transcript walk; no SIGINT in RealWorld")));
         bad
+    }
+    fn replay_real(&self, sc: &Scenario) -> Option<Violation> {
+        self.real_case(sc).1.map(|x| x.1)
     }
     fn components(&self) -> J {
         J::obj()
